@@ -10,21 +10,21 @@ theorem Step.inv {cfg : Cfg} {st st' : St} {i : Nat} {a : Act} {ev : Ev} (hO : c
     (h : Inv cfg st) (hs : Step cfg st i a st' ev) : Inv cfg st' := by
   cases hs with
   | startOpen s hi h1 h2 =>
-    exact inv_setT h hi ⟨h1, h2⟩ (fun _ => rfl) (fun _ => rfl) rfl (fun _ _ => Or.inl (by simp [uResp]))
+    exact inv_setT h hi ⟨h1, h2⟩ (fun _ => rfl) (fun _ => rfl) (fun _ => rfl) rfl (fun _ _ => Or.inl (by simp [uResp]))
   | startClose s hi h1 h2 hh => exact inv_startClose h hi h1 h2 hh
   | startGc hi =>
-    exact inv_setT h hi trivial (fun _ => rfl) (fun _ => rfl) rfl (fun _ _ => Or.inl (by simp [uResp]))
+    exact inv_setT h hi trivial (fun _ => rfl) (fun _ => rfl) (fun _ => rfl) rfl (fun _ _ => Or.inl (by simp [uResp]))
   | loadRefuse b s hi hz =>
-    exact inv_setT h hi trivial (fun _ => rfl) (fun _ => rfl) rfl (fun _ _ => Or.inl (by simp [uResp]))
+    exact inv_setT h hi trivial (fun _ => rfl) (fun _ => rfl) (fun _ => rfl) rfl (fun _ _ => Or.inl (by simp [uResp]))
   | loadOk b s hi hnz =>
     obtain ⟨h1, h2⟩ := h.pcs i _ hi
     have := h.refs_nonneg s h1 h2
-    exact inv_setT h hi ⟨h1, h2, by omega⟩ (fun _ => rfl) (fun _ => rfl) rfl
+    exact inv_setT h hi ⟨h1, h2, by omega⟩ (fun _ => rfl) (fun _ => rfl) (fun _ => rfl) rfl
       (fun _ _ => Or.inl (by simp [uResp]))
   | casOk b s rc hi hf he => exact inv_openCasOk h hi he
   | casFail b s rc hi hf hne =>
     obtain ⟨h1, h2, _⟩ := h.pcs i _ hi
-    exact inv_setT h hi ⟨h1, h2⟩ (fun _ => rfl) (fun _ => rfl) rfl (fun _ _ => Or.inl (by simp [uResp]))
+    exact inv_setT h hi ⟨h1, h2⟩ (fun _ => rfl) (fun _ => rfl) (fun _ => rfl) rfl (fun _ _ => Or.inl (by simp [uResp]))
   | addUnfixed b s rc hi hf => rw [hO] at hf; cases hf
   | decRetire b s hi hz =>
     have := inv_closeDec h hi
@@ -38,20 +38,21 @@ theorem Step.inv {cfg : Cfg} {st st' : St} {i : Nat} {a : Act} {ev : Ev} (hO : c
       | true => exact absurd ((closeRetire_iff _).mp hc) hnz
     rw [e] at this
     exact this
-  | retire b s hi => exact inv_closeRetire h hi
+  | retire b s hi => exact inv_closeRetire1 h hi
+  | retire2 b s hi => exact inv_closeRetire2 h hi
   | closeGC b hi =>
-    exact inv_setT h hi trivial (fun _ => rfl) (fun _ => rfl) rfl (fun _ _ => Or.inl (by simp [uResp]))
+    exact inv_setT h hi trivial (fun _ => rfl) (fun _ => rfl) (fun _ => rfl) rfl (fun _ _ => Or.inl (by simp [uResp]))
   | tryLockFail b hi hf =>
-    exact inv_setT h hi trivial (fun _ => rfl) (fun _ => rfl) rfl (fun _ _ => Or.inr hf)
+    exact inv_setT h hi trivial (fun _ => rfl) (fun _ => rfl) (fun _ => rfl) rfl (fun _ _ => Or.inr hf)
   | tryLockOk b hi hf => exact inv_tryLockOk h hi hf
   | readSpurious hi =>
-    exact inv_setT h hi trivial (fun _ => rfl) (fun _ => rfl) rfl (fun _ _ => Or.inl (by simp [uResp]))
+    exact inv_setT h hi trivial (fun _ => rfl) (fun _ => rfl) (fun _ => rfl) rfl (fun _ _ => Or.inl (by simp [uResp]))
   | readEmpty hi hd =>
-    exact inv_setT h hi trivial (fun _ => rfl) (fun _ => rfl) rfl (fun _ _ => Or.inl (by simp [uResp]))
+    exact inv_setT h hi trivial (fun _ => rfl) (fun _ => rfl) (fun _ => rfl) rfl (fun _ _ => Or.inl (by simp [uResp]))
   | readStop s tl hi hd hne =>
-    exact inv_setT h hi trivial (fun _ => rfl) (fun _ => rfl) rfl (fun _ _ => Or.inl (by simp [uResp]))
+    exact inv_setT h hi trivial (fun _ => rfl) (fun _ => rfl) (fun _ => rfl) rfl (fun _ _ => Or.inl (by simp [uResp]))
   | readNext s tl hi hd he =>
-    exact inv_setT h hi ⟨he, by rw [hd]; simp⟩ (fun _ => rfl) (fun _ => rfl) rfl
+    exact inv_setT h hi ⟨he, by rw [hd]; simp⟩ (fun _ => rfl) (fun _ => rfl) (fun _ => rfl) rfl
       (fun _ _ => Or.inl (by simp [uResp]))
   | send b s hi => exact inv_collectSend h hi
   | unlockFixed b hi hg =>
@@ -63,12 +64,12 @@ theorem Step.inv {cfg : Cfg} {st st' : St} {i : Nat} {a : Act} {ev : Ev} (hO : c
     rw [hg] at this
     exact this
   | recheckEmpty b hi hd =>
-    refine inv_setT h hi trivial (fun _ => rfl) (fun _ => rfl) rfl (fun _ hm => ?_)
+    refine inv_setT h hi trivial (fun _ => rfl) (fun _ => rfl) (fun _ => rfl) rfl (fun _ hm => ?_)
     rw [hd] at hm; simp at hm
   | recheckAgain b s tl hi hd he =>
-    exact inv_setT h hi trivial (fun _ => rfl) (fun _ => rfl) rfl (fun _ _ => Or.inl (by simp [uResp]))
+    exact inv_setT h hi trivial (fun _ => rfl) (fun _ => rfl) (fun _ => rfl) rfl (fun _ _ => Or.inl (by simp [uResp]))
   | recheckDone b s tl hi hd hne =>
-    refine inv_setT h hi trivial (fun _ => rfl) (fun _ => rfl) rfl (fun _ hm => ?_)
+    refine inv_setT h hi trivial (fun _ => rfl) (fun _ => rfl) (fun _ => rfl) rfl (fun _ hm => ?_)
     obtain ⟨tl', htl⟩ := h.head_of_mem hm
     rw [hd] at htl
     simp at htl
@@ -93,7 +94,8 @@ theorem init_inv (cfg : Cfg) (n k : Nat) : Inv cfg (init n k) := by
     rw [hlen] at h2
     rw [hget s h1 h2]
     have : cnt (uRet s) (init n k).ths = 0 := cnt_replicate _ _ _ rfl
-    rw [this]; rfl
+    have h2 : cnt (uRet2 s) (init n k).ths = 0 := cnt_replicate _ _ _ rfl
+    rw [this, h2]; rfl
   · intro j pc hj
     have : pc = .idle := by
       simp [init, List.getElem?_replicate] at hj
@@ -109,7 +111,7 @@ theorem init_inv (cfg : Cfg) (n k : Nat) : Inv cfg (init n k) := by
     constructor
     · intro hm
       have : 1 ≤ s ∧ s < 1 + k := by simpa [init, List.mem_range'_1] using hm
-      refine ⟨this.1, by omega, ?_⟩
+      refine ⟨this.1, by omega, ?_, cnt_replicate _ _ _ rfl⟩
       rw [hget s this.1 (by omega)]
     · intro ⟨h1, h2, _⟩
       simp [init, List.mem_range'_1]; omega
